@@ -107,6 +107,11 @@ class BatchProcessor(Entity):
 
         self._buffer.append(event)
 
+        # A full batch starts at once (checked first: with batch_size == 1 the
+        # first item already completes a batch and must not wait for the timeout)
+        if len(self._buffer) >= self.batch_size:
+            return self._process_batch()
+
         # Schedule timeout when first item enters an empty buffer
         if len(self._buffer) == 1 and self.timeout_s > 0:
             self._timeout_event = Event(
@@ -115,9 +120,6 @@ class BatchProcessor(Entity):
                 target=self,
             )
             return [self._timeout_event]
-
-        if len(self._buffer) >= self.batch_size:
-            return self._process_batch()
 
         return []
 
